@@ -28,7 +28,7 @@ def _base(S, fam):
         return ("raise", "result:" + type(e).__name__)
 
 
-def eval_pair(S, fam, a, b, lam1=1, lam2=(1, 0), i1=0, i2=0, e0=None):
+def eval_pair(S, fam, a, b, lam1=1, lam2=(1, 0), i1=0, i2=0, e0=None, fqc=False):
     """(expected coefficients, observed coefficients-or-outcome) of pairing(b*G2, a*G1)."""
     if e0 is None:
         e0 = _base(S, fam)
@@ -38,7 +38,7 @@ def eval_pair(S, fam, a, b, lam1=1, lam2=(1, 0), i1=0, i2=0, e0=None):
     P = S.E1.mul(S.G1, a)
     Q = S.E2.mul(S.G2, b)
     lp = S.inf1(fam)[i1] if P is None else S.pt1(fam, P, lam1)
-    lq = S.inf2(fam)[i2] if Q is None else S.pt2(fam, Q, tuple(lam2))
+    lq = S.inf2(fam)[i2] if Q is None else S.pt2(fam, Q, tuple(lam2), fqc)
     exp = S.F12.pow(e0, (a * b) % S.r)
     o = PL.call(S.pair(fam).pairing, lq, lp)
     if o[0] == "ok":
@@ -101,6 +101,14 @@ def task_grid(a, env):
                         elif (l1, tuple(l2)) == (1, (1, 0)):
                             vals[(av % S.r, bv % S.r)] = got
             r.dk.add((av % S.r, bv % S.r))
+            if a.get("fqc") and av % S.r and bv % S.r:
+                # the same G2 point with FQ-object coefficients (plain and one scaled form)
+                for (l1, l2) in lams[:2]:
+                    exp, got = eval_pair(S, fam, av, bv, l1, l2, 0, 0, e0, True)
+                    r.ev += 1
+                    if got != exp:
+                        r.viol("C05:%s:%s:bilinearity:fq-coefficients" % (a["cfg"], fam), ME + ":replay",
+                               dict(args0, a=hex(av), b=hex(bv), lam1=hex(l1), lam2=[hex(x) for x in l2], fqc=True), exp, got)
     # derived laws on the computed values (model arithmetic on the observed results):
     # sum -> product in either argument; negation -> inverse
     F = S.F12
@@ -129,7 +137,7 @@ def replay(a):
     S = PL.get(a["cfg"])
     exp, got = eval_pair(S, a["fam"], int(a["a"], 16), int(a["b"], 16), int(a.get("lam1", "0x1"), 16),
                          tuple(int(x, 16) for x in a.get("lam2", ["0x1", "0x0"])),
-                         a.get("i1", 0), a.get("i2", 0))
+                         a.get("i1", 0), a.get("i2", 0), None, a.get("fqc", False))
     return None if got == exp else {"expected": exp, "observed": got}
 
 
@@ -232,7 +240,8 @@ def run(ctx):
         for i, av in enumerate(A):
             tasks.append(("grid", {"cfg": cfg, "fam": "opt", "as": hx([av]), "bs": hx(Bv),
                                    "scal": None if ctx.quick else "mixed", "sample": i == 1}))
-        tasks.append(("grid", {"cfg": cfg, "fam": "opt", "as": hx([1, k1]), "bs": hx([1, k2]), "scal": "mixed"}))
+        tasks.append(("grid", {"cfg": cfg, "fam": "opt", "as": hx([1, k1]), "bs": hx([1, k2]), "scal": "mixed", "fqc": True}))
+        tasks.append(("grid", {"cfg": cfg, "fam": "ref", "as": hx([2]), "bs": hx([k2]), "fqc": True}))
         # reference (4.5 s per pairing): quick 3x3 + the 0 / r rows and columns; thorough 7x7
         if ctx.quick:
             for av in (1, 2, r - 1):
@@ -252,7 +261,7 @@ def run(ctx):
     # BLS-T1, subgroup of order 13: the whole group, every scaling
     for av in range(0, 14):
         tasks.append(("grid", {"cfg": "BLS-T1-13", "fam": "opt", "as": [av], "bs": list(range(14)),
-                               "scal": "all4", "sample": av == 2}))
+                               "scal": "all4", "sample": av == 2, "fqc": av in (1, 5)}))
     for avs in _chunks(list(range(14)), 2 if ctx.quick else 1):
         tasks.append(("grid", {"cfg": "BLS-T1-13", "fam": "ref", "as": avs,
                                "bs": list(range(14)) if not ctx.quick else [0, 1, 2, 5, 12, 13]}))
